@@ -1482,6 +1482,12 @@ class EvolveAppTask(BaseEvolutionTask):
                     else:
                         imports.add(import_str)
 
+        if any('models.' in line for line in mutation_lines):
+            # Field types, Q objects, constraints, and expressions are
+            # all rendered relative to "models", whichever mutation they
+            # appear in.
+            imports.add('from django.db import models')
+
         imports.add('from django_evolution.mutations import %s'
                     % ', '.join(sorted(mutation_types)))
 
